@@ -618,8 +618,18 @@ def _skyline_sweep(ctx: Ctx, modname: str, fname: str, per_bin: bool) \
         src(inline_locals(fi.node, scan.iter)) == f"range(len({yp}))"
     if not ok_scan:
         problems.append("the scan does not visit every row of the packing")
-    e_pre = pre_env(pre, env_f if not per_bin else pre_env(
-        body[:body.index(bin_loop)] if bin_loop is not None else [], base))
+    if per_bin:
+        # the values at the start of a round of the bin loop: what the loop
+        # itself assigns is carried over from the previous bin, hence
+        # unknown unless the round sets it again before the sweep
+        e_loop = pre_env(body[:body.index(bin_loop)]
+                         if bin_loop is not None else [], base)
+        if bin_loop is not None:
+            for nm_ in names_stored(bin_loop.body):
+                e_loop.vars.pop(nm_, None)
+        e_pre = pre_env(pre, e_loop)
+    else:
+        e_pre = pre_env(pre, env_f)
     if cn is not None and e_pre.vars.get(cn) != zero:
         problems.append("the sweep does not start at x = 0")
     if problems or scan is None or cn is None:
@@ -727,13 +737,20 @@ def _skyline_sweep(ctx: Ctx, modname: str, fname: str, per_bin: bool) \
         post = sweep.body[sweep.body.index(scan) + 1:]
         env3 = e0.copy()
         A = Poly.var("A")
-        carried = [nm for nm in names_stored(post) if nm != cn
-                   and nm not in roles.values() and nm in e_pre.vars]
+        cand_acc = [nm for nm in names_stored(post) if nm != cn
+                    and nm not in roles.values()]
+        carried = [nm for nm in cand_acc if nm in e_pre.vars]
         acc = carried[0] if len(carried) == 1 else None
+        if acc is None and len(cand_acc) == 1 and per_bin:
+            problems.append(
+                f"the area accumulator `{cand_acc[0]}` is not set to 0 at "
+                "the start of every bin: it carries the area of the bins "
+                "swept before")
         env3.vars.update({roles["top"]: ut, roles["right"]: ur,
                           roles["next"]: nl})
         if acc is None:
-            problems.append("no area accumulator after the scan")
+            if not any("accumulator" in p_ for p_ in problems):
+                problems.append("no area accumulator after the scan")
         else:
             env3.vars[acc] = A
             try:
